@@ -119,6 +119,7 @@ def build(name, env, cfg):
     """Returns (call, mods) where call(**loop_kwargs) runs the routine and mods are the observed modules."""
     ns = cfg.get("net_seed", 0)
     box = cfg.setdefault("_envbox", [env])  # run(..., prebuilt=...) swaps the env in here
+    tn = bool(cfg.get("targets_none"))  # let the routine create its own target networks
     H = [cfg.get("width", 3)]
     lr = cfg.get("lr", 1e-2)
     if name in DISCRETE:
@@ -148,7 +149,7 @@ def build(name, env, cfg):
         f = getattr(importlib.import_module(fn[0]), fn[1])
 
         def call(rb, kw):
-            return f(q, box[0], rb, opt, q_target_net=qt, **kw)
+            return f(q, box[0], rb, opt, q_target_net=None if tn else qt, **kw)
 
         return call, mods
     if name in ("ddpg", "td3", "td3_lap"):
@@ -171,7 +172,7 @@ def build(name, env, cfg):
         f = {"ddpg": train_ddpg, "td3": train_td3, "td3_lap": train_td3_lap}[name]
 
         def call(rb, kw):
-            return f(box[0], policy, popt, st.q, st.q_optimizer, replay_buffer=rb, policy_target=pt, q_target=qt, **kw)
+            return f(box[0], policy, popt, st.q, st.q_optimizer, replay_buffer=rb, policy_target=None if tn else pt, q_target=None if tn else qt, **kw)
 
         return call, mods
     if name == "sac":
@@ -185,7 +186,7 @@ def build(name, env, cfg):
             mods["entropy_coefficient"] = ec._alpha if hasattr(ec, "_alpha") else _first_module(ec)
 
         def call(rb, kw):
-            return train_sac(box[0], st.policy, st.policy_optimizer, st.q, st.q_optimizer, replay_buffer=rb, q_target=qt, entropy_control=ec, **kw)
+            return train_sac(box[0], st.policy, st.policy_optimizer, st.q, st.q_optimizer, replay_buffer=rb, q_target=None if tn else qt, entropy_control=ec, **kw)
 
         r = (call, {k: v for k, v in mods.items() if v is not None})
         return r
@@ -203,7 +204,7 @@ def build(name, env, cfg):
 
         def call(rb, kw):
             return train_td7(box[0], st.embedding, st.embedding_optimizer, st.actor, st.actor_optimizer, st.critic, st.critic_optimizer,
-                             replay_buffer=rb, actor_target=at, critic_target=ct, **kw)
+                             replay_buffer=rb, actor_target=None if tn else at, critic_target=None if tn else ct, **kw)
 
         return call, mods
     if name == "mrq":
@@ -221,7 +222,7 @@ def build(name, env, cfg):
 
         def call(rb, kw):
             return train_mrq(box[0], st.policy_with_encoder, st.encoder_optimizer, st.policy_optimizer, st.q, st.q_optimizer, st.the_bins,
-                             replay_buffer=rb, policy_with_encoder_target=pt, q_target=qt, **kw)
+                             replay_buffer=rb, policy_with_encoder_target=None if tn else pt, q_target=None if tn else qt, **kw)
 
         return call, mods
     if name == "pets":
